@@ -1648,6 +1648,17 @@ static int cfg_parse_internal(cfg_t *cfg, int level, int force_state, cfg_opt_t 
 				goto error;
 
 			cfg->line = val->section->line;
+			/* the section may have ended in another source than it
+			 * began in (an included file that closes it, or one that
+			 * ends inside it): go on under that name, as on that line */
+			if (val->section->filename && (!cfg->filename || strcmp(cfg->filename, val->section->filename))) {
+				char *fn = strdup(val->section->filename);
+
+				if (!fn)
+					goto error;
+				free(cfg->filename);
+				cfg->filename = fn;
+			}
 			if (opt && opt->validcb && (*opt->validcb) (cfg, opt) != 0)
 				goto error;
 			state = 0;
